@@ -6,7 +6,7 @@ for d in /tmp/seed-C* /tmp/seed2-C* /tmp/seed3-C*; do
   [ -d "$d/seed_out" ] || continue
   p=$(basename $d | sed "s/seed[23]\?-//")
   off=0; case $d in /tmp/seed2-*) off=2;; /tmp/seed3-*) off=4;; esac
-  [ -f "$d/seed_out/1/patch.diff" ] && [ -f "$d/seed_out/2/patch.diff" ] || continue
+  [ -f "$d/seed_out/1/notes.md" ] && [ -f "$d/seed_out/2/notes.md" ] && [ -f "$d/seed_out/1/patch.diff" ] && [ -f "$d/seed_out/2/patch.diff" ] || continue
   for i in 1 2; do
     n=$((i+off))
     [ -d seeded/$p-$n ] || checks/seeded.py verify $d/seed_out/$i $p-$n $p 2>&1 | grep -E "UNEXPECTED|kept|NOT KEPT" | sed "s/^/$p-$n: /"
